@@ -603,7 +603,7 @@ func main() {
 		run.Finish()
 	}
 	cfgs := configs()
-	perCfg := run.Pick(400, 12000)
+	perCfg := run.Pick(400, 4000)
 	nops := run.Pick(220, 300)
 	type job struct {
 		cfg  config
